@@ -41,7 +41,7 @@ Print Assumptions axis_bounds_sound.
 
 Example bbox_example :
   (* cubic 0, 300, -300, 0: maximum 50*sqrt(3)... enclosed *)
-  match poly_max 14 (make_bezier QOps 1%Q [0%Q; 300 # 1; -(300 # 1); 0%Q]) 0 1 with
+  match poly_max 14 (make_bezier QOps 1%Q [0%Q; (300 # 1)%Q; (- (300 # 1))%Q; 0%Q]) 0 1 with
   | (l, u) => (86 # 1 <= l)%Q /\ (u <= 87 # 1)%Q
   end.
 Proof. exact Stats_Proofs.bbox_example. Qed.
